@@ -818,6 +818,36 @@ func unauthorizedFoundation(c *vf.Ctx, w *chain.World) {
 			signV1With(w, &t, types.Hash256(p.ID), []int{0}, []uint64{0}, types.CoveredFields{WholeTransaction: true}, 0)
 			try("v1 arbitrary-data update signed by an ordinary key", chain.Use{Name: "v1", V1: &t})
 		}
+		// piggy-back: the Foundation signs a payment with PARTIAL covered fields (its input, the payee output); somebody
+		// else adds an input of theirs signed over the whole transaction and attaches an update naming themselves. No
+		// Foundation key has signed the update.
+		fk := chain.KeyOf(chain.AddrFnd)
+		if w.CS.FoundationSubsidyAddress == k.Addr(chain.AddrFnd) && fk >= 0 {
+			p1, ok1 := findSC(w, k.Addr(chain.AddrFnd))
+			p2, ok2 := findSC(w, k.Addr(chain.AddrV1))
+			if ok1 && ok2 {
+				mk := func(withUpdate bool) chain.Use {
+					t := types.Transaction{
+						SiacoinInputs:  []types.SiacoinInput{{ParentID: p1.ID, UnlockConditions: k.StdUC(fk)}, {ParentID: p2.ID, UnlockConditions: k.StdUC(0)}},
+						SiacoinOutputs: []types.SiacoinOutput{{Value: p1.SiacoinOutput.Value, Address: k.Addr(chain.AddrV1b)}, {Value: p2.SiacoinOutput.Value, Address: k.Addr(chain.AddrV1)}}}
+					signV1With(w, &t, types.Hash256(p1.ID), []int{fk}, []uint64{0}, types.CoveredFields{SiacoinInputs: []uint64{0}, SiacoinOutputs: []uint64{0}}, 0)
+					if withUpdate {
+						arb := append([]byte(nil), types.SpecifierFoundation[:]...)
+						np, nf := k.Addr(chain.AddrV1), k.Addr(chain.AddrV1)
+						t.ArbitraryData = [][]byte{append(append(arb, np[:]...), nf[:]...)}
+					}
+					signV1With(w, &t, types.Hash256(p2.ID), []int{0}, []uint64{0}, types.CoveredFields{WholeTransaction: true}, 0)
+					return chain.Use{Name: "v1", V1: &t}
+				}
+				// control: the partially signed payment with the stranger's extra input but without the update is fine
+				cb, cbs := w.BlockOfUses(mk(false))
+				var cerr error
+				if pv, _ := vf.Try(func() { cerr = w.Validate(cb, cbs) }); pv == nil && cerr == nil {
+					c.Count("foundation_piggyback_control_accepted", 1)
+					try("v1 update attached to a partially signed Foundation payment by a third party's whole-transaction signature", mk(true))
+				}
+			}
+		}
 	}
 	if h >= w.Net.HardforkV2.AllowHeight {
 		for _, cl := range []int{chain.AddrV2, chain.AddrFnd} { // an ordinary key, and the SUBSIDY (not management) address
